@@ -32,12 +32,11 @@ def main():
         for d in dirs:
             pid = d.split("-")[0]
             patch = os.path.join(VERIF, "seeded", d, "patch.diff")
+            sh(["git", "-C", WT, "reset", "--hard", "-q"])
             rc, o = sh(["git", "-C", WT, "apply", patch])
             if rc != 0:
-                rc, o = sh(["git", "-C", WT, "apply", "-3", patch])
-            if rc != 0:
                 out[d] = dict(applied=False, note=o.strip()[-200:])
-                sh(["git", "-C", WT, "checkout", "--", "."])
+                sh(["git", "-C", WT, "reset", "--hard", "-q"])
                 print(d, "patch does not apply any more"); sys.stdout.flush()
                 continue
             t0 = time.time()
@@ -46,7 +45,7 @@ def main():
             last = o.strip().splitlines()[-1] if o.strip() else ""
             out[d] = dict(applied=True, exit=rc, detected=(rc == 1 and "VIOLATION property=%s" % pid in o), last=last[:160], wall_s=int(time.time() - t0))
             print(d, "detected" if out[d]["detected"] else "NOT DETECTED (exit %d)" % rc, last[:120]); sys.stdout.flush()
-            sh(["git", "-C", WT, "checkout", "--", "."])
+            sh(["git", "-C", WT, "reset", "--hard", "-q"])
             sh(["git", "-C", WT, "clean", "-fdq"])
     finally:
         sh(["git", "-C", "/repo", "worktree", "remove", "--force", WT])
